@@ -124,9 +124,10 @@ def ladder(n: int, reps: int) -> list:
     return ops
 
 
-def long_alphabet(n: int) -> list:
+def long_alphabet(n: int, reach: int = 99) -> list:
     a: list = [['g', q] for q in range(n)]
-    a += [['g', p, q] for p, q in itertools.permutations(range(n), 2)]
+    a += [['g', p, q] for p, q in itertools.permutations(range(n), 2)
+          if abs(p - q) <= reach]
     a += [['g', i, i + 1, i + 2] for i in range(n - 2)]
     a.append(['g', n - 1, 0, n // 2])
     a += [['b', 0, 1], ['b', n // 2 - 1, n // 2, n // 2 + 1],
@@ -243,8 +244,18 @@ def plan(ctx: Ctx) -> list:
     # F1: gate-only circuits, every partitioner
     for n, ln in ((2, 4), (3, 3), (4, 2)) if q else \
             ((2, 5), (3, 4), (4, 3), (5, 2)):
-        items += _items('gates', n, sequences(n, ln, 'gates'),
-                        stage_lists(ALL, n, top), seed)
+        sq_all = sequences(n, ln, 'gates')
+        st = stage_lists(ALL, n, top)
+        if q:
+            # block size > width takes the "block the entire circuit"
+            # shortcut whatever the circuit: sequences of length <= 2 only
+            short = [c for c in sq_all if len(c) <= 2]
+            longer = [c for c in sq_all if len(c) > 2]
+            items += _items('gates', n, short, st, seed)
+            items += _items('gates', n, longer,
+                            [x for x in st if x[0][1] <= n], seed)
+        else:
+            items += _items('gates', n, sq_all, st, seed)
     # F2: circuits with barrier-like operations
     aware = ['quick', 'single'] if q else AWARE
     for n, ln in ((2, 3), (3, 3), (4, 2)) if q else ((2, 4), (3, 3), (4, 3)):
@@ -286,7 +297,7 @@ def plan_long(ctx: Ctx) -> list:
         bases = [(6, brickwork(6, 6)), (6, ladder(6, 3)),
                  (8, brickwork(8, 6)), (10, ladder(10, 3))]
     for n, base in bases:
-        alpha = long_alphabet(n)
+        alpha = long_alphabet(n, 2 if q else 99)
         if q:
             st_aware = [[['quick', 2]], [['quick', 3]], [['single', 2]]]
             st_other = [[[p, 3]] for p in ('scan', 'gtqcp', 'tdag')]
